@@ -663,3 +663,61 @@ def rule_tail_loop(db, chk, cfg, rule="TAIL.loop"):
     if n < 2:
         raise AnalysisBroken("TAIL.loop: only %d pop_back() calls found in StripDuplicates / StripNearEqual" % n)
     return n
+
+
+# ---------------------------------------------------------------------------
+# ELLIPSE.radii: the radii that enter the parametrisation are positive (C20)
+# ---------------------------------------------------------------------------
+
+def rule_ellipse_radii(db, chk, cfg, rule="ELLIPSE.radii"):
+    """Ellipse(center, radiusX, radiusY, steps): the leading guards are interpreted for every sign pattern of the two radii.  A
+    non-positive radiusX gives the empty path; otherwise the parametrisation that follows runs with radiusX unchanged and a positive
+    radiusY - the one given, or radiusX when none (zero or a negative value) was given: a circle.  A negative radiusY that gets
+    through mirrors the curve (negative area) and shrinks the step count."""
+    from ..evalx import Interp, Unsupported, _Return
+    n = 0
+    for f in db.find("Ellipse", required=False) or []:
+        if f.is_pattern or f.body is None or len(f.params) != 4 or "Rect" in (qt(f.params[0]) or ""):
+            continue
+        rxn, ryn, stn = f.params[1].get("name"), f.params[2].get("name"), f.params[3].get("name")
+        pre = []
+        for s0 in kids(f.body):
+            if isinstance(s0, dict) and s0.get("kind") == "IfStmt":
+                pre.append(s0)
+            else:
+                break
+        bad = None
+        for rx in (-2.0, 0.0, 5.0):
+            for ry in (-3.0, 0.0, 7.0):
+                def hook(name, argv, nd):
+                    if name.startswith("ctor:"):
+                        return ("empty",)
+                    if name == "sqrt" and argv:
+                        return abs(argv[0]) ** 0.5
+                    return NotImplemented
+                it = Interp(db, {rxn: rx, ryn: ry, stn: 100}, [], call_hook=hook)
+                returned = False
+                try:
+                    for s0 in pre:
+                        it.exec(s0)
+                except _Return:
+                    returned = True
+                except Unsupported as e:
+                    raise AnalysisBroken("%s: cannot interpret the guards of Ellipse: %s" % (rule, e))
+                n += 1
+                if rx <= 0:
+                    okc = returned
+                else:
+                    gx, gy = it.env.get(rxn), it.env.get(ryn)
+                    gx, gy = float(getattr(gx, "v", gx)), float(getattr(gy, "v", gy))
+                    okc = (not returned) and gx == rx and gy == (ry if ry > 0 else rx)
+                chk.instance(rule, {"function": f.qual, "sig": f.sig[:50], "radiusX": rx, "radiusY": ry, "cfg": cfg} if (rx, ry) in ((5.0, -3.0), (5.0, 7.0)) else None, ok=okc)
+                if not okc and bad is None:
+                    bad = (rx, ry, returned, it.env.get(rxn), it.env.get(ryn))
+        if bad:
+            chk.violation(rule, f.qual, f.sig[:40], "Ellipse with radiusX=%s, radiusY=%s: %s - a non-positive radiusX must give the empty path, otherwise the curve is drawn "
+                          "with radiusX and a positive radiusY (radiusX when none was given)" % (bad[0], bad[1], "returns early" if bad[2] else "goes on with radii (%s, %s)" % (bad[3], bad[4])),
+                          f.where, cfg=cfg)
+    if n < 9:
+        raise AnalysisBroken("%s: Ellipse(center, radiusX, radiusY, steps) is not instantiated (configuration %s)" % (rule, cfg))
+    return n
